@@ -15,7 +15,10 @@ Ok(ev) ==
     /\ Logs(ev)
     /\ IF Accepts(ev.pos, ev.s)
        THEN IF Extreme(ev)
-            THEN Reported(ev) \/ (ev.hasVal => ev.valOk)      \* out of range: reported, or converted correctly
+            THEN (Reported(ev) \/ (ev.hasVal => ev.valOk))     \* out of range: reported, or converted correctly
+                 \* an initial value is kept as text, nothing shows a conversion: out of range is reported (a zero significand is 0
+                 \* whatever the exponent; an exponent that is extreme and negative underflows, a positive one overflows)
+                 /\ ((ev.pos = "init" /\ StripZeros(DigitsOnly(Significand(ev.s))) # <<>>) => Reported(ev))
             ELSE ~Reported(ev) /\ ev.valOk /\ ev.rtOk /\ (ev.pos \in {"exp", "mult", "order"} => ev.hasVal)
        ELSE Reported(ev)                           \* rejected text is reported as an issue under the position's rule
 
